@@ -294,6 +294,35 @@ def run_bash(backend: str, script: str, scs: List[Dict[str, Any]], workers: int 
     return out
 
 
+def strip_slots(backend: str, fs: Dict[str, str]) -> Dict[str, str]:
+    """the file tree without the places runs are allowed to write (the slots of built_world)"""
+    rd = RUN_DIR[backend]
+    keep = {}
+    for k, v in fs.items():
+        if k.startswith(("/results/", "/out2/")):
+            continue
+        if k in (rd + "/filelist.txt", rd + "/rel_out.root", rd + "/ANALYSIS.root") or k == rd + "/bogus" or k.startswith(rd + "/bogus/"):
+            continue
+        keep[k] = v
+    return keep
+
+
+def family_closure(backend: str, sc: Dict[str, Any], bash: List[Dict[str, Any]]) -> Optional[str]:
+    """after a successful build every later invocation must leave the tree unchanged outside the slots"""
+    base = None
+    for i, (inv, rb) in enumerate(zip(sc["history"], bash)):
+        if base is not None:
+            now = strip_slots(backend, rb["fs"])
+            if now != base:
+                ks = sorted(k for k in set(now) | set(base) if now.get(k) != base.get(k))
+                return f"invocation {i} {inv['args']} changed {ks[:3]} outside the slots of built_world"
+        elif rb["exit"] == 0:
+            cls = classify_args(inv["args"])
+            if cls[0] == "cfg" and not cls[2]:
+                base = strip_slots(backend, rb["fs"])
+    return None
+
+
 def judge(backend: str, sc: Dict[str, Any], bash: List[Dict[str, Any]], model: Optional[List[Dict[str, Any]]]):
     """-> (property failure or None, correspondence break or None)"""
     cfg = {**DEFAULT_CFG, **sc["config"]}
@@ -412,9 +441,14 @@ def check(tier: str, seed: int, t0: float, build: core.BuildStatus) -> int:
             scs = gen_scenarios(backend, tier, rng, model)
             bash = run_bash(backend, script, scs)
             n_ok = 0
+            n_closure = 0
             for sc, rb in zip(scs, bash):
                 rm = None if backend + ".v" in [k.replace("Runner_", "") for k in refusals] else model_run(model, backend, sc)
                 bad, brk = judge(backend, sc, rb, rm)
+                fc = family_closure(backend, sc, rb)
+                if fc and not brk:
+                    brk = {"invocation": -1, "args": [], "diffs": ["family closure (assumed by C16_histories_partial): " + fc]}
+                n_closure += sum(1 for _ in sc["history"]) if not fc else 0
                 oc.evaluations += len(sc["history"])
                 hist[sc["kind"]] = hist.get(sc["kind"], 0) + 1
                 lens[len(sc["history"])] = lens.get(len(sc["history"]), 0) + 1
@@ -442,7 +476,7 @@ def check(tier: str, seed: int, t0: float, build: core.BuildStatus) -> int:
                 oc.violations.append(core.Violation(
                     key="c16:unquoted-input-word", what=f"{backend} runner.sh {sc['history'][-1]['args']}: {bad[2]}",
                     replay={"kind": "scenario", "backend": backend, "scenario": sc, "broken": "property oracle on the real bash run; the word is outside the plain-word fragment of the theorems"}))
-            per_backend[backend] = {"scenarios": len(scs), "agreeing_with_model_and_property": n_ok, "odd_word_failures": len(odd)}
+            per_backend[backend] = {"scenarios": len(scs), "agreeing_with_model_and_property": n_ok, "odd_word_failures": len(odd), "invocations_consistent_with_family_closure": n_closure}
         oc.samples = [{"backend": "atlas_r21", "config": s["config"], "history": s["history"]} for s in scs[-3:]]
     if model is not None:
         model.close()
